@@ -175,7 +175,10 @@ def run_cell(res, in_dtype, func, user_dtype, fillname, min_count, engine, metho
     else:
         computed_dtype = announced[0]
     # (i) rule table
-    want = rule(func, in_dtype, user_dtype, fill)
+    # documented: with min_count set and no fill_value, nansum/nanprod use NaN as the fill (xarray's min_count semantics),
+    # so the result is widened to hold it
+    eff_fill = NAN if (fill is None and min_count and func in ("nansum", "nanprod")) else fill
+    want = rule(func, in_dtype, user_dtype, eff_fill)
     if want is not None and computed_dtype != want:
         res.outcomes["rule-mismatch"] += 1
         res.violate("dtype-rule", case, dict(dtype=str(computed_dtype)), dict(dtype=str(want)), tags=dict(tags, kind="rule"), size=size)
